@@ -167,6 +167,19 @@ func (k *keyManagementContext) checkMessageCounter(message dataMsg) error {
 	return nil
 }
 
+// macKeysToDisclose returns copies of all MAC keys this context still owes to the peer: the ones waiting to
+// be revealed and the receiving keys of the key pairs in use. It is used when the whole context is retired.
+func (k *keyManagementContext) macKeysToDisclose() []macKey {
+	var ret []macKey
+	for _, m := range k.oldMACKeys {
+		ret = append(ret, append(macKey{}, m...))
+	}
+	for _, u := range k.macKeyHistory.items {
+		ret = append(ret, append(macKey{}, u.receivingKey...))
+	}
+	return ret
+}
+
 func (k *keyManagementContext) revealMACKeys() []macKey {
 	ret := k.oldMACKeys
 	k.oldMACKeys = []macKey{}
